@@ -822,6 +822,23 @@ def discharge(site, F=None):
                     if tot < 2 ** 63:
                         return "G9: operands bounded by their source types (%d, %d)" % (ubs[0], ubs[1])
             if kind == "Overflow(Add)" and len(ops) == 2:
+                # a 64-bit unsigned counter advanced by a small step (a literal, or the byte length of one character)
+                cp = op_place(t["cond"])
+                wide = cp is not None and re.match(r"\((usize|u64), bool\)$", b.local_ty(cp["l"])["s"] or "")
+                selfinc = False
+                if wide and t.get("t") is not None:
+                    # `x = x + step`: the sum is stored back into the place it was read from
+                    for st in b.blocks[t["t"]]["st"]:
+                        if st["k"] == "assign" and st["rv"]["k"] == "use":
+                            q = op_place(st["rv"]["o"])
+                            if q is not None and q["l"] == cp["l"] and any(op_place(o) == st["p"] for o in ops if op_place(o) is not None):
+                                selfinc = True
+                if wide and selfinc:
+                    for o in ops:
+                        c = const_int(b, o)
+                        dc = b.def_call(o)
+                        if (c is not None and 0 <= c <= 64) or (dc is not None and re.search(r"::len_utf8$", callee_name(dc) or "")):
+                            return "G11: 64-bit unsigned counter incremented in place by a small step: wrapping needs more than 2^57 executions of this statement"
                 # loop variable + small constant stays below an existing length
                 c = const_int(b, ops[1])
                 if c is not None and c >= 0 and induction_range(b, ops[0]) is not None:
